@@ -12,6 +12,15 @@ CHECKS = {
    note="Trusted: Lean kernel; axioms propext/Classical.choice/Quot.sound; Spec/Builtins.lean typed in from OData 4.01; T-gen/T-corr harness. "
         "Modelled, not verified: SLY's LALR construction and CPython's re (tied by exhaustive differential run over names x arities).",
    design="§6 C11", technique="Lean 4 proof over hand-written model + generated-table tie theorem (decide) + exhaustive differential correspondence"),
+ "C18": dict(
+   text="Lean 4 theorem `C18.sound`: for every expression of the typed grammar (reference type synthesiser Spec.typeOf written from the OData "
+        "signatures) whatever the model of infer_type answers is the expression's actual type - by structural recursion over all "
+        "expressions, with the return-type table checked row by row against the 49-row OData signature table by the kernel; consequences "
+        "typecheck_accepts_welltyped / typecheck_rejects_bad_literal. The return-type table is re-extracted by probing the real "
+        "infer_return_type on every run (tie theorem), and infer_type/typecheck are run against the model on every built-in x every argument kind.",
+   note="Trusted: Lean kernel; standard axioms; Spec/Types.lean (OData signatures, typed in); T-gen probing + T-corr harness. "
+        "args[i] beyond a call's argument list (IndexError) is outside the model - the parser guarantees arities.",
+   design="§6 C18", technique="Lean 4 proof (structural recursion, finite table by decide) + probed-table tie theorem + differential correspondence"),
 }
 NOT_APPLICABLE = {}
 
